@@ -178,6 +178,9 @@ func SelfTest() []string {
 	for l, class := range map[string]string{
 		`meta l4proto icmp icmp type 8 code 0 counter drop`:       "nft-bare-header-field",
 		`meta l4proto icmp icmp type != 8 code != 0 counter drop`: "nft-bare-header-field",
+		`meta l4proto tcp icmp type != 3 counter drop`:            "nft-conflicting-protocols",
+		`meta l4proto 58 icmp type 128 counter drop`:              "nft-conflicting-protocols",
+		`meta l4proto udp tcp dport 80 counter drop`:              "nft-conflicting-protocols",
 	} {
 		var le *LoadError
 		if err := New(Nft).AddNftRule("c", l); !errors.As(err, &le) || le.Class != class {
@@ -189,6 +192,11 @@ func SelfTest() []string {
 	var le *LoadError
 	if err := n6.AddNftRule("c", `ip saddr 10.0.0.0/8 counter drop`); !errors.As(err, &le) {
 		fail("nft load check: ip saddr in an ip6 table should be a LoadError, got %v", err)
+	}
+	for _, l := range []string{`meta l4proto != tcp icmp type != 3 counter drop`, `icmp type != 3 meta l4proto tcp counter drop`, `meta l4proto 6 tcp dport 80 counter drop`, `meta l4proto 1 icmp type != 3 counter drop`} {
+		if err := New(Nft).AddNftRule("c", l); err != nil {
+			fail("nft: %q must load: %v", l, err)
+		}
 	}
 	// 15 slots exactly is fine
 	if err := New(Iptables).AddIptablesLine(`-A c -p udp -m multiport --dports 1,2,3,4,5,6,7,8,9,10,11,12,13,14:15 -j DROP`); err != nil {
